@@ -613,12 +613,15 @@ def run(ctx):
     for n in range(1, top + 1):
         jobs += _exh_jobs(SIGMA, n, ns * 4)
     ctx.exhaustive[f"token sequences of length <= {top} over {len(SIGMA)} symbols"] = {"complete": True}
-    if not quick:
+    if quick:
+        jobs += _exh_jobs(SIGMA_SMALL, 5, ns * 4)
+        ctx.exhaustive[f"token sequences of length 5 over {len(SIGMA_SMALL)} symbols"] = {"complete": True}
+    else:
         jobs += _exh_jobs(SIGMA_SMALL, 6, ns * 8)
         ctx.exhaustive[f"token sequences of length 6 over {len(SIGMA_SMALL)} symbols"] = {"complete": True}
     ctx.parallel(_exh_worker, jobs)
     hyp = []
-    per = 250 if quick else 6000
+    per = 400 if quick else 6000
     for k in range(ns):
         which = ["sentence", "nearmiss", "chars", "sentence"][k % 4]
         hyp.append((which, k, per * (3 if which == "chars" else 1), 6 if k < 8 else 16))
